@@ -291,7 +291,33 @@ def gen_reclaim(rng, nt):
     return {"det": "memory_reclaim", "args": args, "ticks": ticks}
 
 
+def swap_band(rng, pct):
+    """(total_kb, free_kb) with free exactly inside the < 100-byte band between floor(total/100)*pct and floor(total*pct/100)
+    (bytes): the order of the multiplication and the division in `swaptotal * threshold_pct / 100` decides the verdict"""
+    for _ in range(4000):
+        t_kb = rng.randint(1000, 1 << 34)
+        t = t_kb * 1024
+        if t % 100 == 0:
+            continue
+        lo, hi = t // 100 * pct, t * pct // 100
+        m = -(-lo // 1024) * 1024
+        if lo <= m < hi and m <= t:
+            return t_kb, m // 1024
+    return None
+
+
 def gen_swap_free(rng, nt):
+    if rng.random() < 0.15:
+        pct = rng.choice([50, 75, 90, 97, 99])
+        b = swap_band(rng, pct)
+        if b:
+            t_kb, f_kb = b
+            ticks = []
+            for i, df in enumerate([0, 1, -1, 0][:max(2, min(nt, 4))]):
+                f = min(max(f_kb + df, 0), t_kb)
+                ticks.append({"clock": (1000 + i) * S, "cgs": [],
+                              "sys": {"swaptotal": t_kb * 1024, "swapused": (t_kb - f) * 1024, "swapout_bps": 0}})
+            return {"det": "swap_free", "args": {"threshold_pct": str(pct)}, "ticks": ticks}
     pct = rng.choice([0, 1, 5, 10, 15, 20, 50, 99, 100, 150])
     args = {"threshold_pct": str(pct)}
     bps = 0
